@@ -1,8 +1,8 @@
 """C12 - building never alters its inputs and is independent of earlier builds.
 
 Space : operations = {4 models: plain / multi-client / global-namespace system / model whose MTS build
-        fails late} x {cfg A, cfg B (other semantics, import, prefix, suffix), cfg C (invalid: raises
-        inside build after partial work)} x {shared Builder, fresh Builder} = 24 operations, executed
+        fails late} x {cfg A, cfg B (other semantics, import, prefix, suffix), cfg C and cfg D (invalid in
+        two different ways: raise inside build after partial work)} x {shared Builder, fresh Builder} = 32 operations, executed
         on SHARED FileContents, Configuration, PortsCfg, PortsSemanticsCfg, PortSelect and name-set
         objects. ALL histories to depth 2 (quick) / 3 (thorough) un-pruned, each replayed on fresh
         objects; plus BFS pruned on the canonical state (deep snapshot of all inputs + every
@@ -28,7 +28,7 @@ from ..snapshot import snap, module_globals_digest
 
 PID = 'C12'
 
-NMODELS, NCFGS = 4, 3
+NMODELS, NCFGS = 4, 4
 
 
 _MODELS = []
@@ -60,6 +60,13 @@ def cfg_desc(mi, ci):
         return {'provides': prov, 'requires': ['ALL', 'NONE'] if mi == 3 else ['NONE', 'ALL'], 'fac': 'import',
                 'prefix': 'Other.Project', 'suffix': 'X',
                 'mc': dict(mc, grant='Busy') if mc else None, 'copyright': 'c2', 'creator': None}
+    if ci == 3:
+        # a different way to fail: multi-client claim naming a void-reply event / an unknown name in a selection
+        if mi == 1:
+            return {'provides': ['NONE', 'ALL'], 'requires': ['NONE', 'ALL'], 'fac': 'create', 'prefix': '',
+                    'suffix': 'Shell', 'mc': dict(mc, claim='Other'), 'copyright': 'c', 'creator': 'me'}
+        return {'provides': ['NONE', 'ALL'], 'requires': [['r', 'zz'], 'REMAINING'], 'fac': 'import', 'prefix': '',
+                'suffix': 'Shell', 'mc': None, 'copyright': 'c', 'creator': 'me'}
     if mi == 1:
         return {'provides': ['NONE', 'ALL'], 'requires': ['NONE', 'ALL'], 'fac': 'create', 'prefix': '',
                 'suffix': 'Shell', 'mc': dict(mc, release='Nope'), 'copyright': 'c', 'creator': 'me'}
@@ -77,15 +84,18 @@ class World:
         self.models = models()
         self.fcts = [B.parse_model(m) for m in self.models]
         self.names_r = {'r'}
+        self.names_rz = {'r', 'zz'}
         sel = {'ALL': PortSelect(PortWildcard.ALL), 'NONE': PortSelect(PortWildcard.NONE),
-               'REMAINING': PortSelect(PortWildcard.REMAINING), 'r': PortSelect(self.names_r)}
+               'REMAINING': PortSelect(PortWildcard.REMAINING), 'r': PortSelect(self.names_r),
+               'rz': PortSelect(self.names_rz)}
         self.sel = sel
 
         def side(desc):
             key = json.dumps(desc)
             if key not in self.sides:
-                self.sides[key] = PortsSemanticsCfg(sts=sel[desc[0] if isinstance(desc[0], str) else 'r'],
-                                                    mts=sel[desc[1] if isinstance(desc[1], str) else 'r'])
+                def pick(d):
+                    return d if isinstance(d, str) else ('rz' if len(d) > 1 else 'r')
+                self.sides[key] = PortsSemanticsCfg(sts=sel[pick(desc[0])], mts=sel[pick(desc[1])])
             return self.sides[key]
         self.sides = {}
         self.portscfgs = {}
@@ -116,7 +126,7 @@ class World:
     def inputs(self):
         return {'fcts': self.fcts, 'cfgs': [self.cfgs[k] for k in sorted(self.cfgs)],
                 'portscfgs': [self.portscfgs[k] for k in sorted(self.portscfgs)],
-                'sides': [self.sides[k] for k in sorted(self.sides)], 'names_r': self.names_r,
+                'sides': [self.sides[k] for k in sorted(self.sides)], 'names_r': self.names_r, 'names_rz': self.names_rz,
                 'prefixes': [self.prefixes[k] for k in sorted(self.prefixes)],
                 'encnames': [self.encnames[k] for k in sorted(self.encnames)]}
 
@@ -300,7 +310,7 @@ def explore(ctx):
     else:
         ctx.notes['pruned_bfs'] = 'skipped: the un-pruned sweep already found violations'
     ctx.extra['reference_child_processes'] = len(reference)
-    ctx.rule = (f'all histories of 1..{depth} build operations over 24 operations (4 models x 3 configurations x '
+    ctx.rule = (f'all histories of 1..{depth} build operations over 32 operations (4 models x 4 configurations x '
                 'shared/fresh Builder) on shared input objects, replayed from fresh objects (un-pruned); plus BFS '
                 f'pruned on the canonical state to depth {6 if ctx.thorough else 4}; every build compared with a '
                 'fresh-process reference; non-trivial = history of >= 2 builds')
